@@ -30,7 +30,7 @@ def convert_povm_index_to_var_index (c_sys_dim : Int) (vecs_len : Int) (vecs_siz
   let var_index : Int := ((size * num_measurement) + measurement_index)
   var_index
 
-/-- quara/objects/gate.py:996 `convert_var_index_to_gate_index` -/
+/-- quara/objects/gate.py:1000 `convert_var_index_to_gate_index` -/
 def convert_var_index_to_gate_index (c_sys_dim : Int) (var_index : Int) (on_para_eq_constraint : Bool) : Int × Int :=
   let dim : Int := c_sys_dim
   let t_1 : Int × Int := (Int.fdiv var_index (dim ^ (2 : Nat)), Int.fmod var_index (dim ^ (2 : Nat)))
@@ -44,7 +44,7 @@ def convert_var_index_to_gate_index (c_sys_dim : Int) (var_index : Int) (on_para
       row
   (row, col)
 
-/-- quara/objects/gate.py:1024 `convert_gate_index_to_var_index` -/
+/-- quara/objects/gate.py:1028 `convert_gate_index_to_var_index` -/
 def convert_gate_index_to_var_index (c_sys_dim : Int) (gate_index : Int × Int) (on_para_eq_constraint : Bool) : Int :=
   let dim : Int := c_sys_dim
   let t_1 : Int × Int := gate_index
@@ -53,7 +53,7 @@ def convert_gate_index_to_var_index (c_sys_dim : Int) (gate_index : Int × Int) 
   let var_index : Int := (if (on_para_eq_constraint = true) then (((dim ^ (2 : Nat)) * (row - (1 : Int))) + col) else (((dim ^ (2 : Nat)) * row) + col))
   var_index
 
-/-- quara/objects/mprocess.py:933 `convert_var_index_to_mprocess_index` -/
+/-- quara/objects/mprocess.py:934 `convert_var_index_to_mprocess_index` -/
 def convert_var_index_to_mprocess_index (c_sys_dim : Int) (hss_len : Int) (hss_size : Int) (var_index : Int) (on_para_eq_constraint : Bool) : Int × Int × Int :=
   let dim : Int := c_sys_dim
   let hs_size : Int := ((dim ^ (2 : Nat)) * (dim ^ (2 : Nat)))
@@ -76,7 +76,7 @@ def convert_var_index_to_mprocess_index (c_sys_dim : Int) (hss_len : Int) (hss_s
       row
   (hs_index, row, col)
 
-/-- quara/objects/mprocess.py:971 `convert_mprocess_index_to_var_index` -/
+/-- quara/objects/mprocess.py:972 `convert_mprocess_index_to_var_index` -/
 def convert_mprocess_index_to_var_index (c_sys_dim : Int) (mprocess_index : Int × Int × Int) (hss_len : Int) (hss_size : Int) (on_para_eq_constraint : Bool) : Int :=
   let dim : Int := c_sys_dim
   let hs_size : Int := ((dim ^ (2 : Nat)) * (dim ^ (2 : Nat)))
@@ -120,7 +120,7 @@ def generate_from_var_flag (self_flag : Bool) (on_para_eq_constraint : Option Bo
   | none => self_flag
   | some requested => requested
 
-/-- quara/objects/mprocess.py:583 `MProcess.generate_from_var`: `on_para_eq_constraint = self.on_para_eq_constraint if on_para_eq_constraint is None else on_para_eq_constraint` -/
+/-- quara/objects/mprocess.py:584 `MProcess.generate_from_var`: `on_para_eq_constraint = self.on_para_eq_constraint if on_para_eq_constraint is None else on_para_eq_constraint` -/
 def generate_from_var_flag_mprocess (self_flag : Bool) (on_para_eq_constraint : Option Bool) : Bool :=
   match on_para_eq_constraint with
   | none => self_flag
